@@ -564,16 +564,21 @@ class TimeResponseData:
         :type: 2D or 3D array
 
         """
-        # TODO: move to __init__ to avoid recomputing each time?
-        x = _process_time_response(
-            self.x, transpose=self.transpose,
-            squeeze=self.squeeze, issiso=False)
+        # Figure out the squeeze setting (attribute or package default)
+        squeeze = self.squeeze
+        if squeeze is None:
+            squeeze = config.defaults['control.squeeze_time_response']
 
         # Special processing for SISO case: always retain state index
+        x = self.x
         if self.issiso and self.ntraces == 1 and x.ndim == 3 and \
-             self.squeeze is not False:
+             squeeze is None:
             # Single-input, single-output system with single trace
             x = x[:, 0, :]
+
+        # TODO: move to __init__ to avoid recomputing each time?
+        x = _process_time_response(
+            x, transpose=self.transpose, squeeze=squeeze, issiso=False)
 
         return NamedSignal(x, self.state_labels, self.input_labels)
 
